@@ -7,11 +7,17 @@ THEOREMS = ["Mpir.Rootrem.rootrem_basecase_spec", "Mpir.Rootrem.rootrem_basecase
             "Mpir.Rootrem.mpn_rootrem_schedule_ok", "Mpir.Rootrem.mpn_rootrem_internal_spec",
             "Mpir.Rootrem.mpn_rootrem_internal_approx_spec", "Mpir.Rootrem.mpn_rootrem_spec",
             "Mpir.Root.rootrem_contract", "Mpir.Root.mpz_root_spec", "Mpir.Root.perfect_power_p_sound",
-            "Mpir.Root.perfect_power_p_iff"]
+            "Mpir.Root.perfect_power_p_iff",
+            "Mpir.Rootrem.mpn_dc_sqrtrem_limb_spec", "Mpir.Rootrem.mpn_sqrtrem_even_limb_spec"]
 PINS = [("mpn/generic/rootrem_basecase.c", "mpn_rootrem_basecase"), ("mpn/generic/pow_1.c", "mpn_pow_1"),
         ("mpn/generic/rootrem.c", "mpn_rootrem"), ("mpn/generic/rootrem.c", "mpn_rootrem_internal"),
-        ("mpz/perfpow.c", None), ("mpz/root.c", None), ("mpz/rootrem.c", None), ("mpz/nthroot.c", None)]
-TRUSTED = ["hand-written model lean/Mpir/Model/Rootrem.lean: mpn_rootrem_basecase at value + limb-count level "
+        ("mpz/perfpow.c", None), ("mpz/root.c", None), ("mpz/rootrem.c", None), ("mpz/nthroot.c", None),
+        ("mpn/generic/sqrtrem.c", "mpn_dc_sqrtrem"), ("mpn/generic/sqrtrem.c", "mpn_sqrtrem")]
+TRUSTED = ["hand-written model lean/Mpir/Model/SqrtremLimb.lean: mpn_dc_sqrtrem on limb buffers (every buffer a natural modulo B^size, "
+           "mpn_sub_n / mpn_add_n / mpn_sub_1 / mpn_add_1 / mpn_addmul_1 / mpn_sqr / mpn_half / mpn_intdivrem by their value + carry "
+           "contracts, the C's int c, b and limb q); tied by op mpn_sqrtrem_dc (even limb count, normalised top limb: the operand "
+           "reaches mpn_dc_sqrtrem unshifted and its return value is stored as rp[tn])",
+           "hand-written model lean/Mpir/Model/Rootrem.lean: mpn_rootrem_basecase at value + limb-count level "
            "(every value, every limb count a test reads, every branch and ASSERT_ALWAYS in source order; buffer capacities "
            "PP_ALLOC/EXTRA and their ASSERT_ALWAYS, carries inside the mpn kernels are not represented); mpn_pow_1, mpn_tdiv_qr, "
            "mpn_addmul_1, mpn_divrem_1 enter by their value contracts (C02/C06 kernels)",
@@ -235,7 +241,33 @@ def perfpow_ops(rng, tier):
     for u in (0, 1, -1, 2, -2, 4, -4, 8, -8, 16, -16, 64, -64, 4096, -4096, 1 << 30, -(1 << 30), 1 << 64, -(1 << 64), -(1 << 63)):
         yield "mpz_perfect_power_p %s" % hx(u)
 
+def sqrtdc_ops(rng, tier):
+    """mpn_sqrtrem on even limb counts with a normalised top limb (mpn_dc_sqrtrem unshifted): operands built backwards from
+    the root so that the carries of the recursion take every value — remainder 0, 2S (c = 1 at the top), roots B^n - 1
+    (q carries out of {sp + l, h}), low half of the root zero (q = 1 at :274 needs it), odd/even quotients (c at :271),
+    squares minus one (the correction branch), both l == h and l + 1 == h."""
+    quick = tier == "quick"
+    def emit(N, n):
+        if N >> (128 * n - 2) and N < (1 << (128 * n)): yield "mpn_sqrtrem_dc %s" % vec(limbs_of(N) + [0] * (2 * n - len(limbs_of(N))))
+    for n in list(range(1, 14)) + ([16, 17, 31, 32] if quick else [16, 17, 31, 32, 33, 63, 64, 65, 100, 129]):
+        W = 1 << (64 * n)
+        roots = [W - 1, W - 2, W // 2, W // 2 + 1, (W // 2) | 1, W - (1 << (32 * n)), (W - 1) ^ ((1 << (64 * (n // 2))) - 1),
+                 (W // 2) + (1 << (64 * (n // 2))), W - 1 - (1 << (64 * (n // 2)))]
+        for _ in range(2 if quick else 40):
+            roots.append(rng.getrandbits(64 * n) | (W // 2))
+            roots.append(rrandomb(rng, 64 * n) | (W // 2))
+        for s in roots:
+            rs = (0, 1, 2 * s, 2 * s - 1, s, s + 1, s - 1, W - 1, W, W + 1, rng.randrange(2 * s + 1), rrandomb(rng, 64 * n) % (2 * s + 1))
+            for r in (rs if not quick else rs[:4] + rs[7:11]):
+                if 0 <= r <= 2 * s: yield from emit(s * s + r, n)
+        for _ in range(10 if quick else 100):
+            N = 0
+            for i, x in enumerate(rand_limbs(rng, 2 * n, rng.choice(["uniform", "runs", "ones", "top", "sparse"]))): N |= x << (64 * i)
+            N |= 1 << (128 * n - 1 - rng.randrange(2))
+            yield from emit(N, n)
+
 def gen_ops(rng, tier, ctx=None):
+    yield from sqrtdc_ops(rng, tier)
     yield from basecase_ops(rng, tier)
     yield from internal_ops(rng, tier)
     yield from schedule_ops(rng, tier)
